@@ -10,9 +10,9 @@ TB = ("Trusted: Verus/Z3 (and rustc front end); prelude std specs (assume_specif
 
 CLAIMED = {
  "C19": dict(
-   text="Unbounded deductive proof (Verus) over the real text of TxIndex::{get,is_full,get_height,update,remove_disconnected_block,remove_oldest_block}: "
+   text="Unbounded deductive proof (Verus) over the real text of TxIndex::{new,get,is_full,get_height,update,remove_disconnected_block,remove_oldest_block}: "
         "representation invariant, exact window/eviction/disconnection semantics, true heights, frames, for all keys/values/sequences of calls.",
-   note=TB + " A2: keys of distinct live blocks are disjoint. TxIndex::new not under contract. F4 (window shrinks after a disconnect) is a recorded finding.",
+   note=TB + " A2: keys of distinct live blocks are disjoint. F4 (window shrinks after a disconnection) is an open known finding reported on every run; F2 fixed (4c8a027).",
    technique="contract-based deductive verification (Verus requires/ensures/loop invariants on mechanically extracted functions)",
    ref="DESIGN.md §4 C19, §6"),
 }
